@@ -375,6 +375,34 @@ impl Chain {
         (r, id)
     }
 
+    /// the stored proposal of a deal, if the deal still exists (the repo's `get_deal` helper panics otherwise)
+    pub fn deal_proposal(&self, id: u64) -> Option<fil_actor_market::DealProposal> {
+        let st: fil_actor_market::State = get_state(&self.w.vm, &fil_actors_runtime::STORAGE_MARKET_ACTOR_ADDR)?;
+        st.get_proposal(self.w.vm.store.as_ref(), id).ok()
+    }
+
+    fn piece_manifests(&self, deal_ids: &[u64]) -> Option<Vec<fil_actor_miner::PieceActivationManifest>> {
+        let mut out = vec![];
+        for id in deal_ids {
+            let d = self.deal_proposal(*id)?;
+            let alloc = fil_actors_integration_tests::util::market_pending_deal_allocations_raw(&self.w.vm, &[*id]).ok().and_then(|v| v.first().cloned());
+            out.push(fil_actor_miner::PieceActivationManifest {
+                cid: d.piece_cid,
+                size: d.piece_size,
+                verified_allocation_key: alloc.map(|a| fil_actor_miner::VerifiedAllocationKey { id: a, client: d.client.id().unwrap() }),
+                notify: vec![fil_actor_miner::DataActivationNotification {
+                    address: fil_actors_runtime::STORAGE_MARKET_ACTOR_ADDR,
+                    payload: RawBytes::serialize(*id).unwrap(),
+                }],
+            });
+        }
+        Some(out)
+    }
+
+    fn skipped(why: &str) -> Applied {
+        Applied { code: fvm_shared::error::ExitCode::new(16), ret: None, message: format!("harness: {}", why), panicked: false }
+    }
+
     /// SettleDealPayments for the given deals (anybody may call it).
     pub fn settle_deals(&self, from_idx: usize, deal_ids: &[u64]) -> Applied {
         let params = fil_actor_market::SettleDealPaymentsParams {
@@ -386,7 +414,14 @@ impl Chain {
     /// Pre-commit one sector whose data are the given published deals (CommD from the deal pieces).
     pub fn precommit_with_deals(&mut self, mi: usize, deal_ids: &[u64], extra_life: i64) -> (Applied, u64) {
         let epoch = self.epoch();
-        let meta = fil_actors_integration_tests::util::precommit_meta_data_from_deals(&self.w.vm, deal_ids, SEAL_PROOF, false);
+        let mut pieces = vec![];
+        for id in deal_ids {
+            match self.deal_proposal(*id) {
+                Some(d) => pieces.push(fvm_shared::piece::PieceInfo { size: d.piece_size, cid: d.piece_cid }),
+                None => return (Self::skipped("deal no longer exists"), 0),
+            }
+        }
+        let commd = CompactCommD::of(self.w.vm.primitives().compute_unsealed_sector_cid(SEAL_PROOF, &pieces).unwrap());
         let exp = epoch + self.policy.min_sector_expiration + max_prove_commit_duration(&self.policy, SEAL_PROOF).unwrap() + extra_life;
         let m = &mut self.miners[mi];
         let sn = m.next_sector;
@@ -398,7 +433,7 @@ impl Chain {
             seal_rand_epoch: epoch - 1,
             deal_ids: vec![],
             expiration: exp,
-            unsealed_cid: meta.commd,
+            unsealed_cid: commd,
         }];
         let (worker, id) = (m.worker, m.id);
         let r = self.w.apply(&worker, &id, &TokenAmount::zero(), MinerMethod::PreCommitSectorBatch2 as u64, Some(PreCommitSectorBatchParams2 { sectors }));
@@ -409,7 +444,7 @@ impl Chain {
     /// Prove-commit one sector activating the given deals (piece manifests notify the market).
     pub fn prove_commit_with_deals(&self, mi: usize, sector: u64, deal_ids: &[u64]) -> Applied {
         let m = &self.miners[mi];
-        let pieces = fil_actors_integration_tests::util::make_piece_manifests_from_deal_ids(&self.w.vm, deal_ids.to_vec());
+        let Some(pieces) = self.piece_manifests(deal_ids) else { return Self::skipped("deal no longer exists") };
         let params = ProveCommitSectors3Params {
             sector_activations: vec![SectorActivationManifest { sector_number: sector, pieces }],
             sector_proofs: vec![RawBytes::new(vec![])],
@@ -459,13 +494,17 @@ impl Chain {
     pub fn replica_update(&self, mi: usize, updates: Vec<(u64, u64, u64, Vec<u64>)>) -> Applied {
         use fil_actor_miner::{ProveReplicaUpdates3Params, SectorUpdateManifest};
         let m = &self.miners[mi];
-        let sector_updates: Vec<SectorUpdateManifest> = updates.iter().map(|(sector, deadline, partition, deals)| SectorUpdateManifest {
-            sector: *sector,
-            deadline: *deadline,
-            partition: *partition,
-            new_sealed_cid: make_sealed_cid(format!("upd: {}", sector).as_bytes()),
-            pieces: fil_actors_integration_tests::util::make_piece_manifests_from_deal_ids(&self.w.vm, deals.clone()),
-        }).collect();
+        let mut sector_updates: Vec<SectorUpdateManifest> = vec![];
+        for (sector, deadline, partition, deals) in updates.iter() {
+            let Some(pieces) = self.piece_manifests(deals) else { return Self::skipped("deal no longer exists") };
+            sector_updates.push(SectorUpdateManifest {
+                sector: *sector,
+                deadline: *deadline,
+                partition: *partition,
+                new_sealed_cid: make_sealed_cid(format!("upd: {}", sector).as_bytes()),
+                pieces,
+            });
+        }
         let params = ProveReplicaUpdates3Params {
             sector_proofs: sector_updates.iter().map(|_| RawBytes::new(vec![1, 2, 3, 4])).collect(),
             sector_updates,
